@@ -1234,6 +1234,21 @@ func c18(c *Ctx) {
 		r.opAdd(bx)
 		r.opGet(0, 10)
 	}
+	// directed: the witness of none_lost_refuted (an accepted, never deleted, never expired tx is dropped by gc)
+	{
+		r := newC18run(g, "witness-lost")
+		a := g.plain(1000)
+		cc := g.plain(1000)
+		bx := g.box(1000, []*ltx{a}, 0)
+		bx2 := g.box(5, []*ltx{a}, 0)
+		r.opAdd(bx2)
+		r.opDel([]*ltx{bx})
+		r.opAdd(a)
+		r.opGet(10, 100)
+		r.opAdd(cc)
+		r.opDel([]*ltx{cc})
+		r.opGet(0, 100)
+	}
 	bulk := 3
 	if c.Tier == "thorough" {
 		bulk = 25
